@@ -525,6 +525,7 @@ func (bh *Header) RemoveReference(r *Reference) error {
 		bh.seenRefs[sr.name] = sr.id
 	}
 	r.id = -1
+	r.owner = nil
 	return nil
 }
 
@@ -556,6 +557,7 @@ func (bh *Header) RemoveReadGroup(rg *ReadGroup) error {
 		bh.seenGroups[sg.name] = sg.id
 	}
 	rg.id = -1
+	rg.owner = nil
 	return nil
 }
 
@@ -587,5 +589,6 @@ func (bh *Header) RemoveProgram(p *Program) error {
 		bh.seenProgs[sp.uid] = sp.id
 	}
 	p.id = -1
+	p.owner = nil
 	return nil
 }
